@@ -155,6 +155,15 @@ func genAnnouncer(r *Rng, n int, tier string) []Case {
 		min := r.Pick(60000, 60000, 12, 20, 0)
 		ops := []string{fmt.Sprintf("start min=%d done=%s", min, b01(r.Chance(15)))}
 		steps := r.Range(2, 9)
+		if r.Chance(12) {
+			// The timer of the next regular announce (20..35 ms after the reply; the torrent has enough peers, the
+			// client minimum is far) is pending when the download completes; the tracker takes its time with the
+			// `completed` announce: the tick that comes due meanwhile must not produce a regular announce.
+			ops = []string{"start min=60000 done=0", "need v=0",
+				fmt.Sprintf("replythencomplete iv=%d mi=0 d=%d", r.Pick(20, 25, 35), r.Pick(3, 5, 8)),
+				fmt.Sprintf("hold ms=%d", r.Pick(60, 80))}
+			steps = r.Range(0, 4)
+		}
 		for s := 0; s < steps; s++ {
 			switch x := r.Intn(100); {
 			case x < 45:
@@ -246,6 +255,31 @@ func execAnnouncer(ops []string) []string {
 			r.cur.done = true
 			r.cur.replyC <- rep
 			obs = append(obs, r.await(prev))
+		case "replythencomplete":
+			// the tracker answers (the reply arms the timer of the next regular announce), and the download
+			// completes d ms later, before that timer is due
+			if !r.outstanding() || r.completed {
+				obs = append(obs, "no-call")
+				continue
+			}
+			r.cur.done = true
+			r.cur.replyC <- annReply{resp: &tracker.AnnounceResponse{
+				Interval:    time.Duration(atoi(m["iv"])) * time.Millisecond,
+				MinInterval: time.Duration(atoi(m["mi"])) * time.Millisecond,
+			}}
+			time.Sleep(time.Duration(atoi(m["d"])) * time.Millisecond)
+			r.a.Stats()
+			close(r.completedC)
+			r.completed = true
+			obs = append(obs, r.awaitCall(prev))
+		case "hold":
+			// nothing happens at the tracker for a while: does another announce arrive meanwhile?
+			select {
+			case c := <-r.stub.calls:
+				obs = append(obs, r.gotCall(prev, c))
+			case <-time.After(time.Duration(atoi(m["ms"])) * time.Millisecond):
+				obs = append(obs, r.await(prev))
+			}
 		case "need":
 			r.a.NeedMorePeers(m["v"] == "1")
 			for i := 0; r.a.VerifNeedSignalPending() && i < 20000; i++ {
